@@ -14,7 +14,7 @@ DEFAULT_ASSUMPTIONS = [
 
 
 def weight(job):
-    w = {"bytes-exh": 10, "bytes-pbt": 6, "bytes-bitmaps": 5}
+    w = {"bytes-exh": 10, "bytes-pbt": 6, "bytes-bitmaps": 5, "sub-exh": 12, "sub-pbt": 8, "pp-exh": 9, "pp-pbt": 7}
     return w.get(job["stage"], 5) * (3 if job["config"].startswith("E-") else 1)
 
 
@@ -43,6 +43,41 @@ def byte_stages(with_bitmaps=True):
     return st
 
 
+def iter_stages():
+    return [
+        {"name": "iter-exh", "cmd": "iter-exh", "configs": cfgs(NATIVE + EMU), "shards": shards(4, 8, 4, 8)},
+        {"name": "iter-pbt", "cmd": "iter-pbt", "configs": cfgs(NATIVE + EMU), "shards": shards(8, 16, 4, 8), "args": ["--scale", "4"]},
+    ]
+
+
+def sub_stages(short=True, phases=True):
+    st = [
+        {"name": "sub-exh", "cmd": "sub-exh", "configs": cfgs(NATIVE + EMU), "shards": shards(16, 16, 16, 16)},
+        {"name": "sub-pbt", "cmd": "sub-pbt", "configs": cfgs(NATIVE + EMU), "shards": shards(8, 16, 8, 16)},
+    ]
+    if phases:
+        st.append({"name": "sub-phases", "cmd": "sub-phases", "configs": cfgs(NATIVE + EMU), "shards": shards(4, 16, 4, 8)})
+    if short:
+        st.append({"name": "sub-short", "cmd": "sub-short", "configs": cfgs(NATIVE + EMU), "shards": shards(4, 16, 4, 8)})
+    return st
+
+
+def pp_stages():
+    return [
+        {"name": "pp-exh", "cmd": "pp-exh", "configs": cfgs(["N-auto"] + EMU), "shards": shards(16, 16, 16, 16)},
+        {"name": "pp-pbt", "cmd": "pp-pbt", "configs": cfgs(["N-auto", "E-neon", "E-wasm"]), "shards": shards(16, 16, 8, 16)},
+    ]
+
+
+SUB_GEN = ("Needles: random over alphabets of 1/2/3/4/256 letters, periodic u^k, u^k v, v u^k, u^k with one byte changed, Fibonacci and "
+           "Thue-Morse prefixes, single letter, bytes colliding mod 64, common bytes with one rare byte at offset 0 / middle / end / beyond 254, "
+           "two equal rare bytes; lengths 0, 1, 2..=32, 33..=64, 65..=600. Haystacks are concatenations of pieces derived from the needle "
+           "(occurrence, prefix, suffix, periods, rotation, near miss, Rabin-Karp-hash-equal near miss, change invisible to the 32-bit rolling hash, "
+           "run of the rarest byte, foreign run, needle-alphabet noise, >= 50 false prefilter candidates, long quiet prefix), cut to length classes "
+           "(< needle, == needle, < 16, < 64, around the vector minimum, up to 4 KiB); dedicated generators for prefilter phases and for the "
+           "short-haystack prefilter fallback; bounded-exhaustive: every needle over {a,b} up to 8 (10 thorough) x every haystack up to 12 (16), "
+           "over {a,b,c} up to 5 x 8 (6 x 10), the longest cores also embedded at start/middle/end of 16/64/80-byte haystacks. ")
+
 PLANS = {
     "C01": {
         "rule": "cases = (needle bytes, haystack, placement). Enumerated: every start alignment mod 64 (128 thorough) x every length 0..=L x "
@@ -59,6 +94,82 @@ PLANS = {
                 "memrchr* judged against the naive last position. Non-trivial: the last match lies before the final vector of the scan, "
                 "or 0 < len < one vector, or the match is on the 2nd/3rd needle.",
         "stages": byte_stages(),
+    },
+    "C03": {
+        "rule": SUB_GEN + "Judged: memmem::find, Finder::find, FinderBuilder(Prefilter::None)::find against the naive leftmost occurrence. "
+                "Non-trivial: needle length >= 2 and it occurs, or a window sharing >= half of the needle's prefix precedes the answer. "
+                "Distinct by hash of (needle, haystack); enumerated pairs are distinct by construction.",
+        "stages": sub_stages(),
+    },
+    "C04": {
+        "rule": SUB_GEN + "Judged: memmem::rfind and FinderRev::rfind against the naive rightmost occurrence (empty needle -> haystack length). "
+                "Non-trivial as C03.",
+        "stages": sub_stages(short=False),
+    },
+    "C06": {
+        "rule": "cases = (needle set, haystack, placement); for every case the COMPLETE next/next_back call tree is explored through clone() "
+                "when there are <= 10 matches (2^(k+2) histories), the whole (front, back) state lattice otherwise; at every node size_hint must "
+                "bracket the remaining count, and after exhaustion 4+4 alternating calls must return None. Implementations: Memchr/Memchr2/Memchr3, "
+                "memrchr*_iter, iter() of every One/Two/Three. Enumerated: every match bitmap of haystacks up to 10 (12) bytes; generated: lengths "
+                "0..=1 KiB (4 KiB), sparse / clustered-inside-one-vector / dense layouts. Non-trivial: >= 2 matches of which two are less than "
+                "one vector apart (the two ends meet inside one vector on some explored history). Distinct by hash of (needles, haystack).",
+        "stages": iter_stages(),
+    },
+    "C07": {
+        "rule": "count()/count_raw of every One implementation and Memchr::count against the naive count over the C01 enumeration "
+                "(alignment x length x {none, single, first+dense, last+dense}), all match bitmaps, generated densities 1/2, 1/8, 1/64, every k-th, "
+                "all-but-one; plus count() of a clone taken at EVERY node of the complete next/next_back call tree (partially consumed iterators) "
+                "against the model's remaining count. Non-trivial: >= 2 matches in different regions of the scan, or an iterator advanced from "
+                "at least one end.",
+        "stages": byte_stages() + iter_stages(),
+    },
+    "C08": {
+        "rule": SUB_GEN + "Judged: memmem::find_iter, Finder::find_iter (default and Prefilter::None), memmem::rfind_iter, FinderRev::rfind_iter and "
+                "the into_owned() forms, driven to the end + 3 extra calls, against the literal greedy model (leftmost, resume at i+max(len,1); mirror "
+                "image from the right; empty needle yields every offset once); size_hint of FindIter must bracket the remaining count before every "
+                "step. Non-trivial: needle length >= 2 and it occurs, or a near miss precedes the answer.",
+        "stages": sub_stages(short=False),
+    },
+    "C11": {
+        "rule": "cases = (needle, (index1, index2), haystack). Enumerated: every needle of length 2..=5 over {a,b} (2..=4 over {a,b,c}) x every ordered "
+                "pair of distinct offsets x every haystack up to 13 (16) bytes on the 4/8-lane checked vectors and the portable prefilter. Generated: "
+                "needles up to 300 bytes, offsets up to 254 incl. index1 > index2, haystacks from the finder's minimum upwards with partial pair hits, "
+                "full false pair hits, and an occurrence anywhere / at the last offset / inside the final vector / inside the final needle.len() bytes, "
+                "on sse2, avx2, neon (emulated), simd128 (emulated), checked vectors, portable. Also the default-pair prefilters over the C03 inputs. "
+                "Oracle: needle occurs at e => candidate Some(c), c <= e; candidate c => both pair bytes present at c+index. "
+                "Non-trivial: the needle occurs, or an offset >= 128 is used.",
+        "stages": pp_stages() + [
+            {"name": "sub-pbt", "cmd": "sub-pbt", "configs": cfgs(NATIVE + ["E-neon", "E-wasm"]), "shards": shards(4, 16, 4, 8)},
+            {"name": "sub-short", "cmd": "sub-short", "configs": cfgs(NATIVE), "shards": shards(2, 8)},
+        ],
+    },
+    "C12": {
+        "rule": SUB_GEN + "Judged: twoway::Finder/FinderRev, rabinkarp::Finder/FinderRev, shiftor::Finder (constructor must return None above 15 bytes), "
+                "packed pair find of sse2/avx2/neon/simd128/checked vectors for haystacks >= min_haystack_len (default pair over these inputs; explicit "
+                "index pairs in the pp stages), each against naive find/rfind. Non-trivial as C03.",
+        "stages": sub_stages(short=False) + pp_stages(),
+    },
+    "C18": {
+        "rule": "Enumerated: lengths 0..=96 (160) x {equal, one flipped bit (0x01/0x80/0x10) at every position, two differences} x 8x8 (16x16) "
+                "alignments of the two operands + both operands abutting PROT_NONE pages; all length pairs 0..=40 (64) for is_prefix / is_suffix / "
+                "unequal lengths with a difference at every needle position; generated contents up to 600 bytes. Oracles ==, starts_with, ends_with. "
+                "Non-trivial: length >= 2 and the difference lies in the last 4-byte word or the 2/1-byte tail; length pairs with needle >= 2.",
+        "stages": [
+            {"name": "eq-exh", "cmd": "eq-exh", "configs": cfgs(["N-auto", "E-none"]), "shards": shards(16, 16, 8, 16)},
+            {"name": "eq-pbt", "cmd": "eq-pbt", "configs": cfgs(["N-auto", "E-none"]), "shards": shards(8, 16, 4, 8), "args": ["--scale", "8"]},
+        ],
+    },
+    "C19": {
+        "rule": "Pair::with_indices over ALL 65536 (index1, index2) for needle lengths {0,1,2,3,17,255,256,300}: accepted iff distinct and in range; "
+                "every accepted pair handed to every packed-pair finder type, whose pair() must report it. Pair::new/with_ranker over generated "
+                "needles (0..=600 bytes: single letter, two letters, all distinct, random, rare byte at front/middle/end/only beyond offset 254) x "
+                "8 rankers (default, constant 0, constant 255, identity, reversed, generated table, needle-bytes-most-common, stateful): None iff "
+                "len < 2, else two different offsets inside the needle and <= 254, no panic. Non-trivial: needle >= 3 with a non-default ranker, "
+                "or an index >= 128.",
+        "stages": [
+            {"name": "pair-indices", "cmd": "pair-indices", "configs": cfgs(NATIVE + EMU), "shards": shards(8, 8, 4, 8)},
+            {"name": "pair-pbt", "cmd": "pair-pbt", "configs": cfgs(NATIVE + EMU), "shards": shards(8, 16, 4, 8), "args": ["--scale", "8"]},
+        ],
     },
 }
 
